@@ -1,0 +1,43 @@
+//! `tokio::sync::watch` whose `Sender` makes every access to the shared value a preemption
+//! point for simulated blocking threads (`verif::preempt()`; a no-op everywhere else), so that
+//! check-then-act sequences on the value are interleaved by the simulator the way threads of a
+//! multi-threaded runtime interleave them.  Receivers are tokio's own.
+#![allow(missing_docs, unreachable_pub)]
+pub use ::tokio::sync::watch::{error, Receiver, Ref};
+
+pub struct Sender<T>(::tokio::sync::watch::Sender<T>);
+
+pub fn channel<T>(init: T) -> (Sender<T>, Receiver<T>) {
+    let (s, r) = ::tokio::sync::watch::channel(init);
+    (Sender(s), r)
+}
+
+impl<T> std::ops::Deref for Sender<T> {
+    type Target = ::tokio::sync::watch::Sender<T>;
+    fn deref(&self) -> &Self::Target {
+        &self.0
+    }
+}
+
+impl<T> Sender<T> {
+    pub fn borrow(&self) -> Ref<'_, T> {
+        super::preempt();
+        self.0.borrow()
+    }
+    pub fn send_modify<F: FnOnce(&mut T)>(&self, modify: F) {
+        super::preempt();
+        self.0.send_modify(modify)
+    }
+    pub fn send_if_modified<F: FnOnce(&mut T) -> bool>(&self, modify: F) -> bool {
+        super::preempt();
+        self.0.send_if_modified(modify)
+    }
+    pub fn send_replace(&self, value: T) -> T {
+        super::preempt();
+        self.0.send_replace(value)
+    }
+    pub fn send(&self, value: T) -> Result<(), error::SendError<T>> {
+        super::preempt();
+        self.0.send(value)
+    }
+}
